@@ -27,7 +27,7 @@ THEOREMS = [
     "C19_generated_schema_probes", "C19_generated_writer_code", "C19_generated_facts",
     "C19_descriptor_carried", "C19_doc_detected_iff_fields", "C19_field_roundtrip",
     "C19_never_altered", "C19_refuses_unmapped_type", "C19_refuses_out_of_range_integer", "C19_integer_ranges",
-    "C19_refuses_second_descriptor", "C19_accepts_representable",
+    "C19_refuses_second_descriptor", "C19_refuses_missing_values", "C19_accepts_representable",
     "C19_roundtrip", "C19_roundtrip_with_refusals",
     "C19_without_dry_run_refuted", "C19_initial_flush_harmless", "C19_timestamp_out_of_python_range_refuted",
     "C19_digest_unwritable_refuted", "C19_hyp_satisfiable", "C19_reader_guard", "C19_export_idempotent",
@@ -162,6 +162,8 @@ def c_value(o):
         return "(VTime %s %s)" % (cZ(o[1]), cZ(o[2]))
     if k == "digest":
         return "VDigest"
+    if k == "missing":
+        return "VMissing"
     raise Unmodelled("value %r" % (o,))
 
 
@@ -258,8 +260,37 @@ def build_record(D, fields, vals):
 
 
 def packed_obs(r, fields):
+    """what fastavro is handed: the values of r._packdict(), ("missing",) for a key the dict lacks"""
     pd = r._packdict()
-    return [obs(pd[n]) for _, n in all_fields(fields)]
+    return [obs(pd[n]) if n in pd else ("missing",) for _, n in all_fields(fields)]
+
+
+def attr_obs(r, fields):
+    """what the record holds (attribute view, packed like _packdict packs): for a plain record the same as
+    packed_obs; for a GroupedRecord the values of its members"""
+    from flow.record.base import FieldType
+    out = []
+    for _, n in all_fields(fields):
+        v = getattr(r, n)
+        out.append(obs(v._pack() if isinstance(v, FieldType) else v))
+    return out
+
+
+def flat_descriptor(name, member_descs):
+    """the flat descriptor GroupedRecord builds over its members: first member wins, reserved fields left out"""
+    seen, fields = set(), []
+    for _, fs in member_descs:
+        for t, n in all_fields([tuple(f) for f in fs]):
+            if n in seen:
+                continue
+            seen.add(n)
+            if not n.startswith("_"):
+                fields.append([t, n])
+    return [name, fields]
+
+
+def is_write(op):
+    return op[0] in ("w", "g")
 
 
 def read_back(path):
@@ -311,8 +342,10 @@ def read_back(path):
 
 
 def run_session(workdir, case, idx=0):
-    """case: dict(descs=[(name, fields), ...], ops=[["f"] | ["w", desc_index, [value specs incl. reserved]]])"""
-    from flow.record import RecordDescriptor, RecordWriter
+    """case: dict(descs=[(name, fields), ...], ops=[["f"] | ["w", desc_index, [value specs incl. reserved]]
+       | ["g", index of the flat descriptor, [[member desc_index, [value specs]], ...]]])
+    res["written"]: what fastavro is handed (model input); res["meant"]: what the record holds (oracle input)"""
+    from flow.record import GroupedRecord, RecordDescriptor, RecordWriter
     path = os.path.join(str(workdir), "s%d.avro" % idx)
     if os.path.exists(path):
         os.unlink(path)
@@ -320,6 +353,7 @@ def run_session(workdir, case, idx=0):
     w = RecordWriter(path)
     outs = []
     written = []
+    meant = []
     for op in case["ops"]:
         if op[0] == "f":
             try:
@@ -328,11 +362,19 @@ def run_session(workdir, case, idx=0):
             except Exception as e:  # noqa
                 outs.append(err_kind(e))
             written.append(None)
+            meant.append(None)
         else:
             di = op[1]
             fields = [tuple(f) for f in case["descs"][di][1]]
-            r = build_record(Ds[di], fields, op[2])
+            if op[0] == "g":
+                members = [build_record(Ds[mi], [tuple(f) for f in case["descs"][mi][1]], mv) for mi, mv in op[2]]
+                r = GroupedRecord(case["descs"][di][0], members)
+                if r._desc.name != case["descs"][di][0] or [tuple(f) for f in r._desc.get_field_tuples()] != fields:
+                    raise RuntimeError("flat descriptor of the grouped record differs from the case's: %r" % (r._desc.get_field_tuples(),))
+            else:
+                r = build_record(Ds[di], fields, op[2])
             written.append(packed_obs(r, fields))
+            meant.append(attr_obs(r, fields))
             try:
                 w.write(r)
                 outs.append("ok")
@@ -344,7 +386,7 @@ def run_session(workdir, case, idx=0):
     except Exception as e:  # noqa
         close = err_kind(e)
     flow, raw = read_back(path)
-    return dict(outs=outs, close=close, written=written, flow=flow, raw=raw, path=path)
+    return dict(outs=outs, close=close, written=written, meant=meant, flow=flow, raw=raw, path=path)
 
 
 # ------------------------------------------------------------------------------------------------
@@ -396,10 +438,10 @@ def classify(case, res):
     cls = set()
     ops = case["ops"]
     outs = res["outs"]
-    first_w = next((i for i, op in enumerate(ops) if op[0] == "w"), None)
+    first_w = next((i for i, op in enumerate(ops) if is_write(op)), None)
     for i, op in enumerate(ops):
-        if op[0] == "w" and outs[i] == "ok":
-            if any(o[0] == "dt" and not (MIN_US <= o[1] <= MAX_US) for o in res["written"][i]):
+        if is_write(op) and outs[i] == "ok":
+            if any(o[0] == "dt" and not (MIN_US <= o[1] <= MAX_US) for o in res["meant"][i]):
                 cls.add("instant-outside-year-1-9999")
     if first_w is not None and any(t == "digest" for t, _ in case["descs"][ops[first_w][1]][1]):
         cls.add("digest-field")
@@ -411,7 +453,7 @@ def oracle(case, res):
     problems = []
     ops, outs = case["ops"], res["outs"]
     cls = classify(case, res)
-    first_w = next((i for i, op in enumerate(ops) if op[0] == "w"), None)
+    first_w = next((i for i, op in enumerate(ops) if is_write(op)), None)
     if res["close"] != "ok":
         problems.append(("violation", "close() raised %s" % res["close"]))
     if first_w is None:
@@ -426,24 +468,26 @@ def oracle(case, res):
     mapped = all(t in SPEC_MAP for t, _ in fields0)
     expected = []
     for i, op in enumerate(ops):
-        if op[0] != "w":
+        if not is_write(op):
             if outs[i] != "ok":
                 problems.append(("violation", "flush() raised %s" % outs[i]))
             continue
-        st, idx, _ = record_status([tuple(f) for f in case["descs"][op[1]][1]], res["written"][i])
+        st, idx, _ = record_status([tuple(f) for f in case["descs"][op[1]][1]], res["meant"][i])
+        if op[0] == "g" and st == "must":
+            st = "may"      # a grouped record: stored with its members' values, or refused
         same = case["descs"][op[1]] == case["descs"][d0]
         if outs[i] == "ok":
             if not same:
-                problems.append(("violation", "a record of a second type (%s) was accepted into the file of %s" % (
-                    case["descs"][op[1]][0], name0)))
+                problems.append(("violation", "a record of a second type (%s %r) was accepted into the file of %s %r" % (
+                    case["descs"][op[1]][0], case["descs"][op[1]][1], name0, fields0)))
             if not mapped_desc(case["descs"][op[1]]):
                 problems.append(("violation", "a record with a field of an unmapped type was accepted"))
-            expected.append([normalise(o) for o in res["written"][i]])
+            expected.append([normalise(o) for o in res["meant"][i]])
         else:
             if same and mapped and st == "must":
-                problems.append(("violation", "a representable record was refused (%s): %r" % (outs[i], res["written"][i])))
+                problems.append(("violation", "a representable record was refused (%s): %r" % (outs[i], res["meant"][i])))
             if same and st == "digest" and all(spec_field_status(t, o) in ("must", "digest") for (t, n), o in zip(
-                    all_fields(fields0), res["written"][i])):
+                    all_fields(fields0), res["meant"][i])):
                 problems.append(("finding:digest-field", "a record with a digest field is refused (%s)" % outs[i]))
     fl = res["flow"]
     got_ok = ("open_error" not in fl and fl["end"] == "end" and fl["recs"] == expected
@@ -602,7 +646,48 @@ def gen_record_specs(rnd, fields, mode):
 MAPPED_NO_DIGEST = [t for t in SPEC_MAP if t != "digest"]
 
 
+def colliding_pair(name, fields2):
+    """two DIFFERENT descriptors with the same name and the same (name, 32-bit hash) identifier: the hash input is
+    name + fieldname1 + type1 + fieldname2 + type2 ..., so merging two adjacent fields (t1 n1)(t2 n2) into the one
+    field (t2, n1 + t1 + n2) leaves it unchanged"""
+    (t1, n1), (t2, n2) = fields2[0], fields2[1]
+    merged = [[t2, n1 + t1 + n2]] + [list(f) for f in fields2[2:]]
+    return [name, [list(f) for f in fields2]], [name, merged]
+
+
+def grouped_op(rnd, descs, member_idx, gname):
+    """-> (flat descriptor to append to descs, op)"""
+    flat = flat_descriptor(gname, [descs[i] for i in member_idx])
+    members = [[i, gen_record_specs(rnd, [tuple(f) for f in descs[i][1]], "good")] for i in member_idx]
+    return flat, members
+
+
 def gen_case(rnd):
+    k0 = rnd.random()
+    if k0 < 0.04:
+        # identifier-colliding descriptors in one file, either first
+        t1, t2 = rnd.choice(["string", "varint", "uint32", "bytes", "boolean"]), rnd.choice(["string", "uri", "wstring"])
+        n1, n2 = rnd.sample(["user", "host", "a", "b", "x_1"], 2)
+        da, db = colliding_pair(rnd.choice(DESC_NAMES), [(t1, n1), (t2, n2)] + ([("varint", "n")] if rnd.random() < 0.3 else []))
+        descs = [da, db] if rnd.random() < 0.5 else [db, da]
+        ops = []
+        for _ in range(rnd.randrange(2, 6)):
+            di = rnd.choice([0, 0, 1])
+            ops.append(["w", di, gen_record_specs(rnd, [tuple(f) for f in descs[di][1]], "good")])
+            if rnd.random() < 0.15:
+                ops.append(["f"])
+        return dict(descs=descs, ops=ops)
+    case = gen_case_plain(rnd)
+    if k0 < 0.10 and all(mapped_desc(d) for d in case["descs"]) and not any(t == "digest" for d in case["descs"] for t, _ in d[1]):
+        # a grouped record somewhere in the session (its flat descriptor becomes one more descriptor of the case)
+        idx = rnd.choice([[0], [0, 1], [1, 0]])
+        flat, members = grouped_op(rnd, case["descs"], idx, rnd.choice(["grp/x", case["descs"][0][0]]))
+        case["descs"].append(flat)
+        case["ops"].insert(rnd.randrange(len(case["ops"]) + 1), ["g", len(case["descs"]) - 1, members])
+    return case
+
+
+def gen_case_plain(rnd):
     k = rnd.random()
     if k < 0.06:
         d = gen_descriptor(rnd, MAPPED_NO_DIGEST + ["digest"] * 6, 1, 4)
@@ -680,6 +765,30 @@ def boundary_cases():
         out.append(dict(descs=[d1, d2], ops=[["w", 0, [in_value("a")] + reserved_specs(rnd)],
                                              ["w", 1, ([in_value(1)] if d2[1] and d2[1][0][0] == "varint" else [in_value("b")] * len(d2[1])) + reserved_specs(rnd)],
                                              ["w", 0, [in_value("c")] + reserved_specs(rnd)]]))
+    # identifier-colliding descriptors (same name, same 32-bit hash, different fields): still a second record type
+    for fields2 in ([("string", "user"), ("string", "host")], [("uint32", "n"), ("string", "s")],
+                    [("varint", "a"), ("uri", "b"), ("bytes", "c")], [("boolean", "f0"), ("wstring", "f1")]):
+        da, db = colliding_pair("test/login", fields2)
+        vals = {"string": "alice", "uri": "http://h/", "wstring": "w", "uint32": 7, "varint": -5, "boolean": True, "bytes": b"\x01"}
+        for first, second in ((da, db), (db, da)):
+            rec = lambda d, k: [in_value(vals[t] if k == 0 else (vals[t] * 2 if t not in ("boolean",) else False)) for t, _ in d[1]] + reserved_specs(rnd)  # noqa: E731
+            out.append(dict(descs=[first, second], ops=[["w", 0, rec(first, 0)], ["w", 1, rec(second, 0)], ["w", 0, rec(first, 1)]]))
+    # a GroupedRecord handed to the writer (its _packdict() is empty): stored with its members' values, or refused
+    dp = ["test/process", [["string", "image"], ["varint", "pid"], ["datetime", "started"]]]
+    dh = ["test/hit", [["string", "rule"], ["uint16", "score"]]]
+    ds = ["test/s", [["string", "only"]]]
+    pv = [in_value("evil.exe"), in_value(4242), in_value(dt_values()[12]), in_value("host-7"), in_value(None), in_value(dt_values()[9]), ["int", 1]]
+    hv = [in_value("R-17"), in_value(99)] + reserved_specs(rnd)
+    sv = [in_value("text")] + reserved_specs(rnd)
+    for descs, idx, gname, before in (([dp, dh], [0, 1], "test/grouped", False), ([dp, dh], [1, 0], "test/process", True),
+                                      ([ds], [0], "test/s", False), ([ds], [0], "test/s", True), ([ds, dh], [0, 1], "grp", False)):
+        descs = [list(d) for d in descs]
+        flat = flat_descriptor(gname, [descs[i] for i in idx])
+        members = [[i, {"test/process": pv, "test/hit": hv, "test/s": sv}[descs[i][0]]] for i in idx]
+        descs.append(flat)
+        g = ["g", len(descs) - 1, members]
+        plain = ["w", idx[0], members[0][1]]
+        out.append(dict(descs=descs, ops=([plain, g, plain] if before else [g, g, ["f"], g])))
     # no user fields (descriptor rebuilt from namespace/name), names without "/" and with several
     for nm in ("x", "test/e", "deep/er/name"):
         out.append(dict(descs=[[nm, []]], ops=[["w", 0, reserved_specs(rnd)], ["w", 0, reserved_specs(rnd)]]))
@@ -941,7 +1050,7 @@ def case_canon(case, res):
         if op[0] == "f":
             ops.append("f")
         else:
-            ops.append((op[1], o, tuple(x[0] if x[0] != "int" else ("int", x[1].bit_length()) for x in w)))
+            ops.append((op[0], op[1], o, tuple(x[0] if x[0] != "int" else ("int", x[1].bit_length()) for x in w)))
     return (tuple(tuple(t for t, _ in d[1]) for d in case["descs"]), tuple(ops))
 
 
@@ -989,12 +1098,12 @@ def property_sweep(ctx, kf_by_cls, cases, reported, want_terms=True):
         for kind, _ in problems:
             if kind.startswith("finding:"):
                 reproduced.add(kind.split(":", 1)[1])
-        ctx.count_case(case_canon(case, res), nontrivial=any(op[0] == "w" for op in case["ops"]))
+        ctx.count_case(case_canon(case, res), nontrivial=any(is_write(op) for op in case["ops"]))
         report(ctx, kf_by_cls, case, res, problems, reported)
         if origin.startswith("witness:") and not any(k == "finding:" + origin.split(":", 1)[1] for k, _ in problems):
             ctx.notes.append("known finding %s no longer reproduces on its witness session" % origin.split(":", 1)[1])
         if i % 97 == 0:
-            ctx.sample(dict(origin=origin, descs=case["descs"], ops=[op[0] if op[0] == "f" else ["w", op[1], "..."] for op in case["ops"]],
+            ctx.sample(dict(origin=origin, descs=case["descs"], ops=[op[0] if op[0] == "f" else [op[0], op[1], "..."] for op in case["ops"]],
                             outs=res["outs"], read=len(res["flow"].get("recs", [])), classes=sorted(cls)))
         if want_terms:
             try:
@@ -1056,7 +1165,9 @@ def run(ctx):
         "25 floats incl. subnormal/-0.0/NaN/inf/1e39/16777217.0 by bit pattern, text incl. empty/astral/NUL/surrogates, bytes "
         "incl. empty/all 256 values, timestamps year 1/9999, pre-1970, offsets with seconds and microseconds, instants "
         "outside year 1..9999) and None everywhere, (b) every unmapped whitelisted type and T[] lists, second "
-        "descriptors (other name; same name other fields), field-less descriptors, sessions of several blocks, "
+        "descriptors (other name; same name other fields; CONSTRUCTED pairs with the same name and the same 32-bit "
+        "identifier hash, either written first), GroupedRecords (their _packdict() is empty: refused, or stored with the "
+        "members' values), field-less descriptors, sessions of several blocks, "
         "(c) random sessions mixing representable and unrepresentable records, second types and flushes; "
         "(d) files written by fastavro directly (plain-long datetime columns around the reader's guard, schemas "
         "without doc). distinct = distinct (field types of the descriptors, per operation: descriptor, decision, "
